@@ -91,6 +91,9 @@ def c04(tier, seed):
     c.assumptions = VQ_ASSUME
     mc(c, ["VQ_n2_indirect", "VQ_n2_direct_ev"], tier)
     vq_family(c, tier, seed + 303, ["random"])
+    # "exactly once" also when the device repeats, invents or drops completions (the misbehaving
+    # reference device of C07 at the queue API)
+    vq_family(c, tier, seed + 304, ["adversary"])
     # the ledger is the platform's: the drivers' own submissions and completions count as well,
     # and so do the addresses drivers put *inside* requests (GPU backing memory): device level
     usage_queues(c, tier, seed, device_level=True)
@@ -213,6 +216,10 @@ def c07(tier, seed):
     # ... and capability lists / BAR tables of every shape through PciTransport::new (a window may
     # only be taken from an allocated memory BAR, whatever the function reports)
     pci_family(c, "new", "PciTrace", "PciTrace.cfg", seed, tier)
+    # "arbitrary response bytes" with a meaning: error / short / out-of-order answers of the
+    # command-response devices (GPU, sound, entropy, clock, 9P) against Cmd.tla - no DMA region
+    # is released while a device resource still points at it, no period buffer returned early
+    device_family(c, "cmd", "CmdTrace", "CmdTrace.cfg", seed + 7, tier, max_events=400, queues=False)
     profiles = ["dev", "release"] if tier == "thorough" else ["dev"]
     for prof in profiles:
         out = os.path.join(WORK, c.pid, f"adv-{prof}.ndjson")
